@@ -93,6 +93,8 @@ type specEnv struct {
 	fr   *frame // frame whose locals the contract may mention (nil at call sites)
 	inOld bool
 	head *State // state at the head of the innermost loop iteration (for atHead())
+	finalFr *frame // frame of the function under verification, for final(param) in postconditions
+	finalSt *State // exit state
 }
 
 func (u *Unit) newSpecEnv(bc *BoundContract, st, old *State, args []Val, results []Val) *specEnv {
@@ -197,6 +199,23 @@ func (env *specEnv) eval(e ast.Expr) Val {
 	switch x := e.(type) {
 	case *ast.ParenExpr:
 		switch env.marked(x) {
+		case "final":
+			// final(p): the value of parameter p's variable at function exit (parameters are mutable locals)
+			id, ok := x.X.(*ast.Ident)
+			if !ok || env.finalFr == nil {
+				panic("final(x) needs a parameter name and is only valid in ensures")
+			}
+			a := env.finalFr.findLocal(id.Name, env.typeOf(id))
+			if a == nil {
+				return env.eval(x.X) // never reassigned / no local: the entry value
+			}
+			if env.finalFr.isReg[a] {
+				if v, ok := env.finalSt.cells[a]; ok {
+					return v
+				}
+				return env.eval(x.X)
+			}
+			return env.u.load(env.finalSt, env.finalFr.vals[a].(*Term), env.typeOf(id))
 		case "head":
 			if env.head == nil {
 				panic("atHead() used outside a loop body")
@@ -493,6 +512,13 @@ func (env *specEnv) index(x *ast.IndexExpr) Val {
 	u := env.u
 	c := u.C
 	xt := env.typeOf(x.X)
+	if mt, ok := xt.Underlying().(*types.Map); ok {
+		// m[k] in a contract: the stored value if present, else the zero value
+		m := env.evalTerm(x.X)
+		cell := c.Idx(c.Fld(m, fGhostMap), u.keyTerm(env.st, env.eval(x.Index), mt.Key()))
+		present := c.And(c.Ne(m, c.NilA), u.readCell(env.st, "bool", c.Fld(cell, fMapPresent)))
+		return u.iteVal(present, u.load(env.st, cell, mt.Elem()), u.zeroVal(mt.Elem()))
+	}
 	i := env.to64(x.Index)
 	switch t := xt.Underlying().(type) {
 	case *types.Slice:
@@ -744,8 +770,16 @@ func (env *specEnv) callExpr(x *ast.CallExpr) Val {
 		case "held":
 			a := env.identity(x.Args[0])
 			return u.readCell(env.st, "bool", c.Fld(a, fGhostHeld))
+		case "disk": // content class of the file at path (ghost file system)
+			return u.readCell(env.st, "bv64", env.diskCell(x.Args[0]))
+		case "diskOfFile":
+			return u.readCell(env.st, "bv64", c.Idx(c.Fld(c.Obj(-5000000), fGhostMap), u.readCell(env.st, "bv64", c.Fld(env.identity(x.Args[0]), env.ghostFieldName("pathkey")))))
+		case "pathKey":
+			return u.keyTerm(env.st, env.eval(x.Args[0]), env.typeOf(x.Args[0]))
 		case "mapAt":
 			return u.load(env.st, env.mapCell(x.Args[0], x.Args[1]), types.NewInterfaceType(nil, nil))
+		case "mapHas":
+			return u.readCell(env.st, "bool", c.Fld(env.mapCell(x.Args[0], x.Args[1]), fMapPresent))
 		case "isFresh":
 			// the object was allocated during this call (decided syntactically on the address term)
 			var a *Term
@@ -768,6 +802,21 @@ func (env *specEnv) callExpr(x *ast.CallExpr) Val {
 				return c.False
 			}
 			return fresh(a)
+		case "sameStr": // the same string value (identical header): implies equal contents
+			a, b := env.eval(x.Args[0]).(*SliceV), env.eval(x.Args[1]).(*SliceV)
+			return c.And(c.Eq(a.Base, b.Base), c.Eq(a.Off, b.Off), c.Eq(a.Len, b.Len))
+		case "sameHdr": // two slices with the same header (same backing array, offset and length)
+			a, b := env.eval(x.Args[0]).(*SliceV), env.eval(x.Args[1]).(*SliceV)
+			return c.And(c.Eq(a.Base, b.Base), c.Eq(a.Off, b.Off), c.Eq(a.Len, b.Len))
+		case "distinctBacking": // the two slices do not share a backing array
+			a, b := env.eval(x.Args[0]).(*SliceV), env.eval(x.Args[1]).(*SliceV)
+			return c.Or(c.Ne(a.Base, b.Base), c.Eq(a.Cap, c.BVu(0, 64)), c.Eq(b.Cap, c.BVu(0, 64)))
+		case "mapValuesNonNil": // every present entry of a pointer-valued Go map is non-nil
+			m := env.evalTerm(x.Args[0])
+			k := c.BoundVar("key", BV(64))
+			cell := c.Idx(c.Fld(m, fGhostMap), k)
+			present := u.readCell(env.st, "bool", c.Fld(cell, fMapPresent))
+			return c.Forall([]*Term{k}, c.Implies(present, c.Ne(u.readCell(env.st, "addr", cell), c.NilA)))
 		case "sameSeq":
 			a, b := env.eval(x.Args[0]).(*SliceV), env.eval(x.Args[1]).(*SliceV)
 			return c.And(c.Eq(a.Base, b.Base), c.Eq(a.Off, b.Off), c.Eq(a.Len, b.Len))
@@ -966,8 +1015,25 @@ func (env *specEnv) region(items []ast.Expr, all bool) *Region {
 				case "mapAt":
 					r.addCell(u, env.mapCell(call.Args[0], call.Args[1]), types.NewInterfaceType(nil, nil))
 					continue
+				case "disk":
+					cell := env.diskCell(call.Args[0])
+					r.setRoot(cell); r.add("bv64", func(a *Term) *Term { return c.Eq(a, cell) })
+					continue
+				case "diskOfFile":
+					cell := c.Idx(c.Fld(c.Obj(-5000000), fGhostMap), u.readCell(env.st, "bv64", c.Fld(env.identity(call.Args[0]), env.ghostFieldName("pathkey"))))
+					r.setRoot(cell); r.add("bv64", func(a *Term) *Term { return c.Eq(a, cell) })
+					continue
 				case "mapAll":
-					r.addElems(u, c.Fld(env.identity(call.Args[0]), fGhostMap), nil, nil, types.NewInterfaceType(nil, nil))
+					base := c.Fld(env.identity(call.Args[0]), fGhostMap)
+					var et types.Type = types.NewInterfaceType(nil, nil)
+					if mt, ok := env.typeOf(call.Args[0]).Underlying().(*types.Map); ok {
+						et = mt.Elem()
+					}
+					r.addElems(u, base, nil, nil, et)
+					r.setRoot(base)
+					r.add("bool", func(a *Term) *Term {
+						return c.And(c.FldIdIs(a, fMapPresent), c.IsIdx(c.FldBase(a)), c.Eq(c.IdxBase(c.FldBase(a)), base))
+					})
 					continue
 				case "misc":
 					idt := env.identity(call.Args[0])
@@ -1108,6 +1174,9 @@ func (env *specEnv) mapCell(m, key ast.Expr) *Term {
 	return c.Idx(c.Fld(id, fGhostMap), u.keyTerm(env.st, env.eval(key), env.typeOf(key)))
 }
 
+// mapAll(m) as a region also covers the presence flags of a Go map
+
+
 func (u *Unit) keyTerm(st *State, v Val, t types.Type) *Term {
 	c := u.C
 	switch x := v.(type) {
@@ -1126,8 +1195,9 @@ func (u *Unit) keyTerm(st *State, v Val, t types.Type) *Term {
 			return c.App(n, BV(64), x.Tag, x.Ptr)
 		}
 	case *SliceV:
-		n := c.DeclareUF("strKey", []Sort{SAddr, BV(64), BV(64)}, BV(64))
-		return c.App(n, BV(64), x.Base, x.Off, x.Len)
+		// a function of the string header; strings of different length (mod 2^32) get different keys
+		n := c.DeclareUF("strKey", []Sort{SAddr, BV(64), BV(64)}, BV(32))
+		return c.Concat(c.App(n, BV(32), x.Base, x.Off, x.Len), c.Extract(x.Len, 31, 0))
 	case *Term:
 		if w, signed, ok := intWidth(t); ok {
 			if signed {
@@ -1142,4 +1212,19 @@ func (u *Unit) keyTerm(st *State, v Val, t types.Type) *Term {
 		}
 	}
 	panic(fmt.Sprintf("unsupported map key %T of type %s", v, t))
+}
+
+func (env *specEnv) diskCell(path ast.Expr) *Term {
+	u := env.u
+	c := u.C
+	return c.Idx(c.Fld(c.Obj(-5000000), fGhostMap), u.keyTerm(env.st, env.eval(path), env.typeOf(path)))
+}
+
+func (env *specEnv) ghostFieldName(name string) int {
+	id, ok := env.u.E.ghostNames[name]
+	if !ok {
+		id = -(100 + len(env.u.E.ghostNames))
+		env.u.E.ghostNames[name] = id
+	}
+	return id
 }
